@@ -65,7 +65,8 @@ pub fn generate(rng: &mut Rng, fault_free: bool) -> K18 {
     // aircraft in all four quadrants at distinct latitude offsets (labels on distinct rows)
     let slots: [(f64, f64); 6] = [(0.25, 0.3), (-0.25, -0.3), (0.75, -0.9), (-0.75, 0.9), (1.3, 0.6), (-1.3, -0.6)];
     let nac = 1 + rng.usize_below(6);
-    let dur_a: u64 = 2_000_000 + rng.below(6_000_000);
+    let deep = simcore::deep() && rng.chance(0.33);
+    let dur_a: u64 = 2_000_000 + rng.below(if deep { 20_000_000 } else { 6_000_000 });
     let mut lines: Vec<(u64, String)> = vec![];
     let mut order: Vec<usize> = (0..6).collect();
     for i in (1..6).rev() {
@@ -80,7 +81,7 @@ pub fn generate(rng: &mut Rng, fault_free: bool) -> K18 {
         let mut ctr = 0u32;
         let mut odd = rng.coin();
         let cs = format!("AC{}{}", (b'A' + slot as u8) as char, rng.below(90) + 10);
-        while t < to && lines.len() < 120 {
+        while t < to && lines.len() < if deep { 400 } else { 120 } {
             let me = match ctr % 4 {
                 0 => wire::me_identification(4, 0, &cs),
                 1 | 2 => {
@@ -142,7 +143,7 @@ pub fn generate(rng: &mut Rng, fault_free: bool) -> K18 {
         *t += gap;
     };
     push(&mut events_b, &mut t, key("F1"), 250_000);
-    let nctl = if fault_free { 2 } else { 1 + rng.usize_below(12) };
+    let nctl = if fault_free { 2 } else { 1 + rng.usize_below(if deep { 40 } else { 12 }) };
     if !fault_free && rng.chance(0.4) {
         // centre the map on an aircraft from the Airplanes tab
         push(&mut events_b, &mut t, key("F3"), 150_000);
